@@ -565,3 +565,106 @@ func genSysBulks(g gen, o vh.Opts) []string {
 	}
 	return lines
 }
+
+// ---------------------------------------------------------------- long token values, sealed fractions re-read from disk
+// syslong values=<n> k=<fractions> : keyword values of 72+ bytes sharing their first 72 bytes; layout A: one ACTIVE
+// fraction; layout B: k sealed fractions whose FracManager is stopped and re-opened (token tables re-read from disk).
+// Exact queries for every value, a prefix query, both orders: same ids and totals.
+
+func runSysLong(root, line string) (resp sysResp) {
+	defer func() {
+		if r := recover(); r != nil {
+			resp.Err = "panic: " + fmt.Sprint(r)
+		}
+	}()
+	m := kv(strings.Fields(line)[1:])
+	n, k := atoi(m["values"]), atoi(m["k"])
+	dir, err := os.MkdirTemp(root, "long")
+	if err != nil {
+		resp.Err = err.Error()
+		return
+	}
+	defer os.RemoveAll(dir)
+	prefix := strings.Repeat("p", 72)
+	val := func(i int) string { return fmt.Sprintf("%s%03d-tail", prefix, i%n) }
+	var fms []*fracmanager.FracManager
+	defer func() {
+		for _, fm := range fms {
+			fm.WaitIdle()
+			fm.Stop()
+		}
+	}()
+	ndocs := 3 * n
+	ingest := func(fm *fracmanager.FracManager, lo, hi int) error {
+		dp := frac.NewDocProvider()
+		for i := lo; i < hi; i++ {
+			dp.Append([]byte(`{"x":1}`), nil, seq.ID{MID: seq.MID(i + 1), RID: seq.RID(i % 2)}, seq.Tokens("_all_:", "service:"+val(i)))
+		}
+		dm, mm := dp.Provide()
+		if err := fm.Append(context.Background(), dm, mm); err != nil {
+			return err
+		}
+		fm.WaitIdle()
+		return nil
+	}
+	fmA, err := newFM(filepath.Join(dir, "a"))
+	if err != nil {
+		resp.Err = err.Error()
+		return
+	}
+	fms = append(fms, fmA)
+	if err := ingest(fmA, 0, ndocs); err != nil {
+		resp.Err = err.Error()
+		return
+	}
+	var listB fracmanager.List
+	for j := 0; j < k; j++ {
+		d := filepath.Join(dir, fmt.Sprintf("b%d", j))
+		fm, err := newFM(d)
+		if err != nil {
+			resp.Err = err.Error()
+			return
+		}
+		if err := ingest(fm, j*ndocs/k, (j+1)*ndocs/k); err != nil {
+			resp.Err = err.Error()
+			return
+		}
+		fm.SealForcedForTests()
+		fm.WaitIdle()
+		fm.Stop()
+		fm2, err := newFM(d) // "restart": the sealed fraction is loaded from its files
+		if err != nil {
+			resp.Err = "reopen: " + err.Error()
+			return
+		}
+		fms = append(fms, fm2)
+		listB = append(listB, fm2.GetAllFracs()...)
+	}
+	var a, bb []string
+	queries := []string{`service:"` + prefix + `*"`}
+	for i := 0; i < n; i++ {
+		queries = append(queries, `service:"`+val(i)+`"`)
+	}
+	for qi, qs := range queries {
+		ast, err := parser.ParseSeqQL(qs, seq.TestMapping)
+		if err != nil {
+			resp.Err = "query: " + err.Error()
+			return
+		}
+		for _, desc := range []bool{true, false} {
+			p := processor.SearchParams{AST: ast.Root, From: 0, To: seq.MID(1 << 40), Limit: 4, WithTotal: true, Order: order(desc)}
+			run := func(l fracmanager.List) string {
+				q, err := fracmanager.NewSearcher(2, fracmanager.SearcherCfg{FractionsPerIteration: 1}).SearchDocs(context.Background(), append(fracmanager.List(nil), l...), p)
+				if err != nil {
+					return "err"
+				}
+				return fmt.Sprintf("%s/%d", fmtIDs(q.IDs.IDs()), q.Total)
+			}
+			tag := fmt.Sprintf("q%d desc=%v: ", qi, desc)
+			a, bb = append(a, tag+run(fmA.GetAllFracs())), append(bb, tag+run(listB))
+		}
+	}
+	resp.A = strings.Join(a, " ; ")
+	resp.B = []string{strings.Join(bb, " ; ")}
+	return
+}
